@@ -19,8 +19,10 @@ RULE = ("Kruskal tensors of order 1..4 (mode sizes 1..4, singleton modes) and ra
         "fixsigns alone and against references with every sign pattern of the modes; redistribute into every mode; "
         "extract with valid subsets, duplicates and invalid index lists; tovec/from_vector/update/tolist; + - neg * ; "
         "score against permuted / perturbed copies; malformed arguments for each operation; sequences of 3..8 calls on live "
-        "objects (tovec / tolist / extract / copy / from_vector / update from shared vectors / + / - followed by in-place "
-        "normalize / arrange / fixsigns / redistribute) with denotation, bitwise frame and round-trip checks after every step; "
+        "objects (tovec / tolist / extract / copy / from_vector / update from shared vectors / + / - / unary - + / scalar * on "
+        "either side / permute / symmetrize / constructor followed by in-place normalize / arrange / fixsigns / redistribute) "
+        "with denotation, full(), bitwise frame and round-trip checks on every live object after every step; every "
+        "(creating operation x in-place operation x mutated side) combination is enumerated; "
         "non-trivial = accepted and the tensor is not identically zero; distinct = distinct case hash")
 ASSUMPTIONS = [
     "square roots and N-th roots are computed exactly in the model when rational and to 2^-80 otherwise; the "
@@ -1201,7 +1203,28 @@ class Sequences(Family):
                     prog.append({"op": rng.choice(["add", "sub"]), "a": k, "b": b})
                     Rs.append(Rs[k] + Rs[b])
                     touched.append(len(Rs) - 1)
-            elif u < 0.95 or not ls:
+            elif u < 0.91:
+                v = rng.random()
+                if v < 0.3:
+                    prog.append({"op": "smul", "k": k, "c": rng.choice([2, -3, -1, 0]), "side": rng.choice(["l", "r"]),
+                                 "num": rng.choice(["int", "float"])})
+                elif v < 0.45:
+                    prog.append({"op": "neg", "k": k})
+                elif v < 0.55:
+                    prog.append({"op": "pos", "k": k})
+                elif v < 0.75 or len(set(s)) != 1:
+                    # permute keeps the shape only for cubic tensors; otherwise permute twice back
+                    if len(set(s)) == 1:
+                        prog.append({"op": "permute", "k": k, "order": gen.perm(rng, N)})
+                    else:
+                        prog.append({"op": "reconstruct", "k": k})
+                elif v < 0.9:
+                    prog.append({"op": "symmetrize", "k": k})
+                else:
+                    prog.append({"op": "reconstruct", "k": k})
+                Rs.append(Rs[k])
+                touched.append(len(Rs) - 1)
+            elif u < 0.96 or not ls:
                 prog.append({"op": "tolist", "k": k, "mode": rng.choice([None] + list(range(N)))})
                 ls.append(Rs[k])
             else:
@@ -1225,8 +1248,78 @@ class Sequences(Family):
             inplace()
         return prog
 
-    def gen(self, rng, tier):
+    @staticmethod
+    def _enumerated(rng):
+        """(creating operation) x (in-place operation) x (which live tensor is mutated), every combination"""
         out = []
+        R = 2
+
+        def inplaces(k, other, N):
+            return [
+                {"op": "normalize", "k": k, "wf": None, "sort": False, "nt": "2", "mode": None},
+                {"op": "normalize", "k": k, "wf": None, "sort": False, "nt": "1", "mode": 0},
+                {"op": "normalize", "k": k, "wf": "all", "sort": False, "nt": "inf", "mode": None},
+                {"op": "normalize", "k": k, "wf": N - 1, "sort": True, "nt": "2", "mode": None},
+                {"op": "arrange", "k": k, "wf": None, "perm": None},
+                {"op": "arrange", "k": k, "wf": 0, "perm": None},
+                {"op": "arrange", "k": k, "wf": None, "perm": "reverse"},
+                {"op": "fixsigns", "k": k},
+                {"op": "fixsigns_ref", "k": k, "other": other},
+                {"op": "redistribute", "k": k, "mode": N - 1},
+            ]
+
+        def creators(N):
+            # (steps, operand slots, rank of the new tensor)
+            return [
+                ([{"op": "smul", "k": 0, "c": 2, "side": "l", "num": "int"}], [0], R),
+                ([{"op": "smul", "k": 0, "c": -3, "side": "r", "num": "float"}], [0], R),
+                ([{"op": "smul", "k": 0, "c": -1, "side": "l", "num": "float"}], [0], R),
+                ([{"op": "neg", "k": 0}], [0], R),
+                ([{"op": "pos", "k": 0}], [0], R),
+                ([{"op": "add", "a": 0, "b": 1}], [0, 1], 2 * R),
+                ([{"op": "sub", "a": 0, "b": 1}], [0, 1], 2 * R),
+                ([{"op": "copy", "k": 0}], [0], R),
+                ([{"op": "extract", "k": 0, "idx": [1, 0]}], [0], R),
+                ([{"op": "extract", "k": 0, "idx": [1]}], [0], 1),
+                ([{"op": "permute", "k": 0, "order": list(range(N))[::-1]}], [0], R),
+                ([{"op": "permute", "k": 0, "order": list(range(N))}], [0], R),
+                ([{"op": "tovec", "k": 0, "w": True}, {"op": "from_vector", "v": 0, "shape": None, "w": True}], [0], R),
+                ([{"op": "tolist", "k": 0, "mode": None}, {"op": "construct", "l": 0}], [0], R),
+                ([{"op": "tolist", "k": 0, "mode": 0}, {"op": "construct", "l": 0}], [0], R),
+                ([{"op": "symmetrize", "k": 0}], [0], R),
+                ([{"op": "reconstruct", "k": 0}], [0], R),
+            ]
+
+        shapes = ([2, 2, 2], [3, 3])
+        for ci in range(len(creators(2))):
+            for ii in range(10):
+                for s in (shapes if creators(2)[ci][0][0]["op"] == "symmetrize" else (shapes[(ci + ii) % 2],)):
+                    N = len(s)
+                    steps, operands, Rnew = creators(N)[ci]
+                    steps = [dict(st, shape=s) if st["op"] == "from_vector" else st for st in steps]
+                    new = 2
+                    live = operands + [new]
+                    for side in live:
+                        rk = Rnew if side == new else R
+                        cand = [j for j in (1, 0, new) if j != side and (Rnew if j == new else R) <= rk]
+                        other = cand[0] if cand else side
+                        ip = dict(inplaces(side, other, N)[ii])
+                        if ip.get("perm") == "reverse":
+                            ip["perm"] = list(range(rk))[::-1]
+                        # then a different in-place call on another live tensor
+                        side2 = live[(live.index(side) + 1) % len(live)]
+                        rk2 = Rnew if side2 == new else R
+                        cand2 = [j for j in (0, 1, new) if j != side2 and (Rnew if j == new else R) <= rk2]
+                        ip2 = dict(inplaces(side2, cand2[0] if cand2 else side2, N)[(ii + 3) % 10])
+                        if ip2.get("perm") == "reverse":
+                            ip2["perm"] = list(range(rk2))[::-1]
+                        ks = [gen_kt(rng, s, R, zero_cols=0.0, wpool=[-3, -2, 1, 2, 3, 5], distinct_weights=True),
+                              gen_kt(rng, s, R, zero_cols=0.0, wpool=[-3, -2, 1, 2, 3, 5], distinct_weights=True)]
+                        out.append({"ks": ks, "vs": [], "ls": [], "prog": steps + [ip, ip2]})
+        return out
+
+    def gen(self, rng, tier):
+        out = self._enumerated(rng)
         n = 90 if tier == "quick" else 1500
         # the fixed patterns: one vector feeding several updates, then in-place calls
         for s in ([2, 3], [3], [2, 2, 3], [3, 1, 2]):
@@ -1305,6 +1398,20 @@ class Sequences(Family):
             ls.append(ks[st["k"]].tolist(st["mode"]))
         elif op == "construct":
             ks.append(ttb.ktensor(ls[st["l"]]))
+        elif op == "smul":
+            c = st["c"] if st.get("num") == "int" else float(st["c"])
+            ks.append(c * ks[st["k"]] if st.get("side") == "l" else ks[st["k"]] * c)
+        elif op == "neg":
+            ks.append(-ks[st["k"]])
+        elif op == "pos":
+            ks.append(+ks[st["k"]])
+        elif op == "permute":
+            ks.append(ks[st["k"]].permute(np.array(st["order"], dtype=int)))
+        elif op == "symmetrize":
+            ks.append(ks[st["k"]].symmetrize())
+        elif op == "reconstruct":
+            K = ks[st["k"]]
+            ks.append(ttb.ktensor(K.factor_matrices, K.weights, copy=True))
         else:
             raise ValueError(op)
 
@@ -1352,6 +1459,19 @@ class Sequences(Family):
             want = {"weights": list(A["weights"]) + list(wb),
                     "factors": [[ra + rb for ra, rb in zip(fa, fb)] for fa, fb in zip(A["factors"], B["factors"])]}
             return deep_eq(after_j["ks"][-1], want)
+        if op in ("pos", "reconstruct"):
+            return deep_eq(after_j["ks"][-1], ks[st["k"]])
+        if op in ("smul", "neg"):
+            K = ks[st["k"]]
+            c = -1 if op == "neg" else st["c"]
+            want = {"weights": [jval(c * fr(x)) for x in K["weights"]], "factors": K["factors"]}
+            return deep_eq(after_j["ks"][-1], want)
+        if op == "permute":
+            K = ks[st["k"]]
+            return deep_eq(after_j["ks"][-1], {"weights": K["weights"], "factors": [K["factors"][i] for i in st["order"]]})
+        if op == "symmetrize":
+            fs = after_j["ks"][-1]["factors"]
+            return all(deep_eq(f, fs[0]) for f in fs) and len(fs) == len(ks[st["k"]]["factors"])
         if op == "construct":
             fs = before_j["ls"][st["l"]]
             return deep_eq(after_j["ks"][-1], {"weights": [1] * len(fs[0][0]), "factors": fs})
@@ -1452,13 +1572,25 @@ class Sequences(Family):
                 if _snap(env) != after:
                     return Verdict("violation", f"{where}: a round trip modified a live object",
                                    {"trace": trace, "env": after_j}, model, before_j, tags, nontrivial)
+            # (iv) full() of EVERY live tensor is the array its stored form (and the model's object) denotes
+            for j, Kl in enumerate(env["ks"]):
+                if Kl.ndims == 0:
+                    continue
+                fu = call(lambda Kl=Kl: [Fraction(float(x)) for x in np.asarray(Kl.full().data).flatten(order="F")])
+                ref_j = mi["ok"]["ks"][j] if (compare_model and mi is not None and "ok" in mi and j < len(mi["ok"]["ks"])
+                                              and op != "symmetrize") else after_j["ks"][j]
+                if "ok" not in fu or not vec_close(fu["ok"], denote_j(ref_j), 1e-9):
+                    if ref_j is not after_j["ks"][j] and "ok" in fu and vec_close(fu["ok"], denote_j(after_j["ks"][j]), 1e-9):
+                        break  # stored form differs from the model: decided by the correspondence test below
+                    return Verdict("violation", f"{where}: full() of live Kruskal tensor #{j} is not the array it denotes",
+                                   {"trace": trace, "env": after_j}, model, before_j, tags, nontrivial)
             # model correspondence of the whole environment
             if compare_model:
                 if mi is None or "reject" in mi:
                     return Verdict("corr", f"{where}: the model refuses what the implementation accepts",
                                    {"trace": trace, "env": after_j}, model, None, tags, nontrivial)
                 if not close(after_j, mi["ok"], 1e-11):
-                    fragile = op == "fixsigns_ref" or (
+                    fragile = op in ("fixsigns_ref", "symmetrize") or (
                         op in ("normalize", "arrange") and near_ties([fr(x) for x in mi["ok"]["ks"][st["k"]]["weights"]] + (
                             [fr(x) for x in before_j["ks"][st["k"]]["weights"]] if op == "arrange" else [])))
                     if op == "arrange" and st.get("wf") is not None:
